@@ -68,7 +68,7 @@ verif_harness! {
         Some(<TdesEde2 as KeyInit>::weak_key_test(&key.into()).is_err() == tdes_expect(&key, 2))
     }
 }
-//@ harness name=tdes_eee2_weak_exact prop=C13 tier=quick bits=128 est=20 desc="TdesEee2::weak_key_test: same predicate as Ede2; all 2^128 keys"
+//@ harness name=tdes_eee2_weak_exact prop=C13 tier=quick bits=128 est=15 desc="TdesEee2::weak_key_test: same predicate as Ede2; all 2^128 keys"
 verif_harness! {
     name: tdes_eee2_weak_exact,
     bytes: 16,
